@@ -24,11 +24,21 @@ Print Assumptions C13_resolve_functions.
 
 (* (2) No operation loses a package's own definitions: in every state and for every operation of the
    specification, an own variable / function cell of any package is kept unless the operation is
-   makunbound / fmakunbound of that very name in that very package; lifted to every history. *)
+   makunbound / fmakunbound of that very name in that very package -- or, for a variable cell that is an
+   exported symbol WITHOUT a value (interned by `export` before anything was defined), defun of that name
+   there: the function takes the place of the symbol.  A variable that has a value is only lost by
+   makunbound (C13_own_bound_variable_never_lost).  Lifted to every history. *)
 Theorem C13_own_variable_never_lost : forall s o p n a,
   own_v s p n = Some a -> ~ removes_v s o p n -> own_v (sstep s o) p n = Some a.
 Proof. exact own_v_never_lost. Qed.
 Print Assumptions C13_own_variable_never_lost.
+
+Theorem C13_own_bound_variable_never_lost : forall s o p n a vv,
+  own_v s p n = Some a -> s_vheap s a = Some vv -> vv_val vv <> None ->
+  ~ (match o with OMakunbound n' => p = s_cur s /\ n = n' | _ => False end) ->
+  own_v (sstep s o) p n = Some a.
+Proof. exact own_v_bound_never_lost. Qed.
+Print Assumptions C13_own_bound_variable_never_lost.
 
 Theorem C13_own_function_never_lost : forall s o p n a,
   own_f s p n = Some a -> ~ removes_f s o p n -> own_f (sstep s o) p n = Some a.
@@ -40,24 +50,28 @@ Theorem C13_own_variable_survives_history : forall ops s p n a,
 Proof. exact own_v_survives. Qed.
 Print Assumptions C13_own_variable_survives_history.
 
-(* (3) THE REFINEMENT M = S.  After ANY history (any length) of defpackage-level operations that stays
-   inside the guard and keeps the name discipline (a name is used as a variable: setq/defvar/makunbound
-   and variable queries on VN = {0,1}; or as a function: defun/fmakunbound and calls on FN = {2,3};
-   export/unexport on either), every query the harness makes -- the value of every variable name and the
-   result of calling every function name, plain, pkg:name and pkg::name, from every current package --
-   answers in the code model M (the denormalised tables of package.go, entries pushed at
-   use/export/define time) exactly what the specification S answers (visibility recomputed from the
-   use/export graph), after every step of the history.  "No operation leaves a stale or private binding
-   visible" for all guarded histories, not only the generated ones. *)
+(* (3) THE REFINEMENT M = S, for the code REPAIRED by repo_fixes/C13-1 .. C13-12.  After ANY history (any
+   length, any mix of the ten operations on any names: the name discipline of earlier versions is gone) that
+   stays inside the guard, every query the harness makes -- the value of every variable name and the result
+   of calling every function name, plain, pkg:name and pkg::name, from every current package -- answers in
+   the code model M (the denormalised tables of package.go) exactly what the specification S answers
+   (visibility recomputed from the use/export graph), after every step.  The guard no longer excludes
+   unuse-package, setq of private variables, fmakunbound / makunbound / unexport of inherited or exported
+   names, defun on inherited names, export before definition, use-package of a package exporting names the
+   package owns: its remaining clauses say, step by step, that what the code writes into the table entries
+   it touches is the new resolution, which fails only (a) where an entry is copied from a table that holds
+   it as an inherited entry (transitive inheritance, by design of slip's cl-user umbrella) and (b) where an
+   entry appears or disappears while ANOTHER used package exports the same name (no recomputation in Uses
+   order).  "No operation leaves a stale or private binding visible" for all guarded histories. *)
 Theorem C13_refinement : forall ops,
-  forallb (sorted_op VN FN) ops = true -> guard_run PK NM (sinit 0) ops = true ->
+  guard_run PK NM (sinit 0) ops = true ->
   run PK VN FN (init 0) ops = srun PK VN FN (sinit 0) ops.
 Proof. exact refinement_PK. Qed.
 Print Assumptions C13_refinement.
 
 (* the same for an arbitrary history on its longest guarded prefix (what Corr.check_case evaluates per run) *)
 Theorem C13_refinement_prefix : forall ops,
-  let g := sorted_guard_prefix PK VN FN (sinit 0) ops in
+  let g := guard_prefix PK NM (sinit 0) ops in
   firstn g (run PK VN FN (init 0) ops) = firstn g (srun PK VN FN (sinit 0) ops).
 Proof. exact refinement_prefix_PK. Qed.
 Print Assumptions C13_refinement_prefix.
@@ -68,62 +82,68 @@ Theorem C13_selfcheck_unreachable : forall c, check_case c <> 3.
 Proof. exact selfcheck_unreachable. Qed.
 Print Assumptions C13_selfcheck_unreachable.
 
-(* (3a) general form: any package universe P (the guard only needs it to contain the packages used), any
-   disjoint name sets VN / FN, any start package, any list PQ of observing packages.  The abstraction
-   relation Inv (variable heaps equal, function cells agree on home package and export flag and, for
-   live cells, the Lambda a FuncInfo refers to holds the value S has; every table entry of M equals the resolution of S -- for variable names in
-   the variable table, for every name in the function table; Uses equal, Users the inverse of Uses; own
-   cells carry their home package, are distinct, variables of VN are bound; every exported own cell of a
-   used package is what the user resolves to) holds initially, is preserved by every guarded step, and
-   makes every query agree. *)
-Theorem C13_refinement_general : forall P VN FN, disjoint_names VN FN = true ->
-  forall PQ p0 ops,
-  forallb (sorted_op VN FN) ops = true -> guard_run P (VN ++ FN) (sinit p0) ops = true ->
+(* (3a) general form: any package universe P and name universe NM (the guard only needs them to contain
+   the packages and names used), any start package, any list PQ of observing packages, any lists VN / FN of
+   names queried as variables / as functions (they may overlap).  The abstraction relation Inv (variable
+   heaps equal, function cells agree on home package and export flag and, for live cells, the Lambda a
+   FuncInfo refers to holds the value S has; EVERY entry of M's variable and function table equals the
+   resolution of S; Uses equal, Users the inverse of Uses, both duplicate-free; own cells carry their home
+   package and are pairwise distinct) holds initially, is preserved by every guarded step, and makes every
+   query agree. *)
+Theorem C13_refinement_general : forall P NM PQ VN FN p0 ops,
+  guard_run P NM (sinit p0) ops = true ->
   run PQ VN FN (init p0) ops = srun PQ VN FN (sinit p0) ops.
 Proof. exact refinement_general. Qed.
 Print Assumptions C13_refinement_general.
 
-Theorem C13_step_preserves_relation : forall P VN FN, disjoint_names VN FN = true ->
-  forall m s o, Inv P VN FN m s -> sorted_op VN FN o = true -> guard_step P (VN ++ FN) s o = true ->
-  Inv P VN FN (step m o) (sstep s o).
+Theorem C13_step_preserves_relation : forall P NM m s o,
+  Inv P NM m s -> guard_step P NM s o = true -> Inv P NM (step m o) (sstep s o).
 Proof. exact step_preserves. Qed.
 Print Assumptions C13_step_preserves_relation.
 
 (* the tables of M are the resolution of S after every guarded history (state form) *)
-Theorem C13_tables_are_the_graph : forall P VN FN, disjoint_names VN FN = true ->
-  forall p0 ops, forallb (sorted_op VN FN) ops = true -> guard_run P (VN ++ FN) (sinit p0) ops = true ->
+Theorem C13_tables_are_the_graph : forall P NM p0 ops,
+  guard_run P NM (sinit p0) ops = true ->
   let m := fold_left step ops (init p0) in let s := fold_left sstep ops (sinit p0) in
-  (forall p n, mem n VN = true -> vars m p n = resolve_v s p n) /\
+  (forall p n, vars m p n = resolve_v s p n) /\
   (forall p n, funcs m p n = resolve_f s p n) /\
   (forall a, vheap m a = s_vheap s a) /\ (forall a, frel (fheap m a) (s_fheap s a)).
 Proof. exact tables_are_the_graph. Qed.
 Print Assumptions C13_tables_are_the_graph.
 
-(* (3b) outside the guard the faithful model M differs from S: for each clause of the guard a witness
-   history (each a known finding, replayed on the implementation every run); the last two were found by
-   this proof (the per-run evaluation had not met them). *)
+(* (3b) outside the guard the model of the repaired code still differs from S: witnesses for the two
+   remaining known findings -- transitive inheritance through Use and through Unuse
+   (C13-use-copies-inherited) and no fallback / no precedence / no uncovering in Uses order
+   (C13-no-fallback-in-uses-order); each is replayed on the implementation every run. *)
 Theorem C13_outside_guard_refuted :
   forallb differs witnesses = true /\ forallb (fun w => negb (guard_run PK NM (sinit 0%N) w)) witnesses = true.
 Proof. exact outside_guard_refuted. Qed.
 Print Assumptions C13_outside_guard_refuted.
 
-(* (3c) the name discipline is necessary: a guarded history using one name as function and variable where M <> S *)
-Theorem C13_name_discipline_needed_refuted :
-  guard_run PK NM (sinit 0%N) w_unsorted = true /\ differs w_unsorted = true /\
-  forallb (sorted_op VN FN) w_unsorted = false.
-Proof. exact unsorted_refuted. Qed.
-Print Assumptions C13_name_discipline_needed_refuted.
+(* (3c) the witness histories of the repaired findings (unuse drops own, private variable pushed, use
+   overwrites own, fmakunbound stale, export before defun, defun on inherited, unbound marker, makunbound /
+   fmakunbound of inherited names, defun inheriting an export mark, unexport in a user, exported symbol
+   without home) and a history using one name as function and variable are now INSIDE the guard, and M = S
+   on them *)
+Theorem C13_repaired_histories_inside_guard :
+  forallb (fun w => guard_run PK NM (sinit 0%N) w && negb (differs w)) repaired = true.
+Proof. exact repaired_inside_guard. Qed.
+Print Assumptions C13_repaired_histories_inside_guard.
 
-(* (4) the guard is satisfiable by a name-disciplined history that uses every guarded operation, and there M = S *)
+(* (4) the guard is satisfiable by a history that uses every operation (unuse included), and there M = S *)
 Theorem C13_guard_nonvacuous :
-  guard_run PK NM (sinit 0%N) ex_guarded = true /\ forallb (sorted_op VN FN) ex_guarded = true /\
-  differs ex_guarded = false /\ List.length ex_guarded = 16%nat.
+  guard_run PK NM (sinit 0%N) ex_guarded = true /\
+  differs ex_guarded = false /\ List.length ex_guarded = 19%nat.
 Proof. exact guarded_example. Qed.
 Print Assumptions C13_guard_nonvacuous.
 
-(* (5) regression of the model against the implementation: a history observed on the unchanged code where
-   a stale FuncInfo held by users shows the body of a LATER defun (Package.DefLambda patches the first
-   Lambda of the name in place); the model reproduces every one of its 12 x 84 observations. *)
+(* (5) regressions of the model against the REPAIRED implementation: two recorded histories (stale FuncInfo
+   scenario of the unrepaired code; defun of an inherited function redefining it in its home package),
+   every one of their 12 x 84 and 9 x 84 observations reproduced by the model, both inside the guard. *)
 Theorem C13_regression_lambda_patch : check_case regress_lambda_patch = 0%N.
 Proof. exact regress_lambda_patch_ok. Qed.
 Print Assumptions C13_regression_lambda_patch.
+
+Theorem C13_regression_defun_inherited : check_case regress_defun_inherited = 0%N.
+Proof. exact regress_defun_inherited_ok. Qed.
+Print Assumptions C13_regression_defun_inherited.
